@@ -288,7 +288,8 @@ def prop_retrain(case, rec):
     """History: list A is trained into directory X, then list B into the SAME directory; the result must be byte-identical
     (apart from the uuid) to training B into an empty directory - nothing of the earlier run may survive."""
     kw = dict(encoding='utf-8', coverage=case['coverage'], ngram=case['ngram'], alphabet_size=case['alphabet_size'])
-    x, y = os.path.join(_dir(), 'RX'), os.path.join(_dir(), 'RY')
+    # the directory name carries characters that mean something to glob / fnmatch / regex (legal in a rule name)
+    x, y = os.path.join(_dir(), 'R[XY] v1.0+'), os.path.join(_dir(), 'RY')
     pa, _ = write_list(dict(case, entries=case['entries_a']))
     ra = guard(case, trainer.train, pa, x, **kw)
     pb = os.path.join(_dir(), 'train_b.txt')
@@ -346,18 +347,60 @@ def prop_cli(case, rec):
     out = os.path.join(_dir(), 'RL')
     r = guard(case, trainer.train, path, out, save_sensitive=False, **kw)
     import shutil
-    shutil.rmtree(os.path.join(root, 'Rules', 'T'), ignore_errors=True)
-    env = dict(os.environ, PYTHONUTF8='1', LC_ALL='C.UTF-8', PYTHONDONTWRITEBYTECODE='1', PYTHONWARNINGS='ignore')
-    cmd = [sys.executable, os.path.join(root, 'trainer.py'), '-t', path, '-r', 'T', '-e', 'utf-8', '-c', str(case['coverage']),
-           '-n', str(case['ngram']), '-a', str(kw['alphabet_size'])] + (['--prefixcount'] if pc else [])
+    from .. import cli, rsmodel
+    ctx = case.get('context') or cli.DEFAULT
+    rule = ctx.get('rule', 'T')
+    # how the rule is spelled on the command line: bare name, with a trailing separator (shell completion), inside a sub
+    # folder, or as an absolute path - every tool joins the value onto <tool dir>/Rules the same way
+    spelling = case.get('rule_spelling', 'bare')
+    rules = os.path.join(root, 'Rules')
+    shutil.rmtree(rules, ignore_errors=True)
+    shutil.rmtree(os.path.join(root, 'external rules'), ignore_errors=True)
+    os.makedirs(rules)
+    if spelling == 'subfolder':
+        arg, cli_dir = os.path.join('team', rule), os.path.join(rules, 'team', rule)
+    elif spelling == 'trailing_separator':
+        arg, cli_dir = rule + os.sep, os.path.join(rules, rule)
+    elif spelling == 'absolute':
+        cli_dir = os.path.join(root, 'external rules', rule)
+        shutil.rmtree(os.path.dirname(cli_dir), ignore_errors=True)
+        arg = cli_dir
+    else:
+        arg, cli_dir = rule, os.path.join(rules, rule)
+    # neighbours in the Rules folder (names a careless pattern match would also hit) and stale files of an earlier training
+    sib = {}
+    for nm in ('pwa', 'T', rule + '2', 'Default'):
+        if os.path.normpath(os.path.join(rules, nm)) != os.path.normpath(cli_dir):
+            rsmodel.write_ruleset(os.path.join(rules, nm), cli.DECOY_MODEL)
+            sib[nm] = tree(os.path.join(rules, nm))
+    if case.get('stale_files'):
+        os.makedirs(os.path.join(cli_dir, 'Alpha'), exist_ok=True)
+        os.makedirs(os.path.join(cli_dir, 'Digits'), exist_ok=True)
+        for fn in ('Alpha/19.txt', 'Digits/17.txt'):
+            with open(os.path.join(cli_dir, fn), 'w') as f:
+                f.write('stale\t1.0\n')
+    lo = case.get('long_options')
+    cmd = [('--training' if lo else '-t'), path, ('--rule' if lo else '-r'), arg, ('--encoding' if lo else '-e'), 'utf-8', ('--coverage' if lo else '-c'), str(case['coverage']),
+           ('--ngram' if lo else '-n'), str(case['ngram']), ('--alphabet' if lo else '-a'), str(kw['alphabet_size'])] + (['--prefixcount'] if pc else [])
     try:
-        p = subprocess.run(cmd, stdin=subprocess.DEVNULL, capture_output=True, text=True, env=env, cwd=root, timeout=600)
+        p = cli.run(root, 'trainer.py', cmd, ctx, timeout=600, text=True, rule_name=rule)
     except subprocess.TimeoutExpired:
         rec.skip('cli_timeout_inconclusive')
         return
-    cli_dir = os.path.join(root, 'Rules', 'T')
-    cli_ok = os.path.exists(os.path.join(cli_dir, 'config.ini'))
-    rec.case({'entries': case['entries'][:4], 'coverage': case['coverage'], 'cli_rc': p.returncode}, len(case['entries']) >= 3, ['cli_trainer'], key=case)
+    # where the ruleset went is the tools' business (C03's CLI part checks that the guesser finds it under the same spelling);
+    # here: exactly one new ruleset appeared below the tool folder, and it is the one the library writes
+    skip = {os.path.normpath(os.path.join(rules, nm)) for nm in sib}
+    found = [d for d, _, fs in os.walk(root) if 'config.ini' in fs and os.path.normpath(d) not in skip and 'decoy dir' not in d]
+    if len(found) > 1:
+        raise Violation('cli_completion', f'trainer.py -r {arg!r} left several new rulesets: {found}', case)
+    if found:
+        cli_dir = found[0]
+    cli_ok = bool(found)
+    rec.case({'entries': case['entries'][:4], 'coverage': case['coverage'], 'cli_rc': p.returncode, 'rule_arg': arg, 'context': ctx}, len(case['entries']) >= 3,
+             ['cli_trainer', 'cli_rule_' + spelling] + cli.label(ctx) + (['cli_stale_files_present'] if case.get('stale_files') else []), key=case)
+    for nm, before in sib.items():
+        if tree(os.path.join(rules, nm)) != before:
+            raise Violation('neighbour_ruleset_touched', f'trainer.py -r {arg!r}: the neighbouring ruleset Rules/{nm} was modified', case)
     if bool(r.ok) != cli_ok:
         raise Violation('cli_completion', f'run_trainer() completed: {bool(r.ok)}, trainer.py wrote a ruleset: {cli_ok}; output tail: {p.stdout[-300:]}', case)
     if not r.ok:
@@ -370,8 +413,11 @@ def prop_cli(case, rec):
 
 
 def run_cli(rec, seed, shard, nshards, tier):
-    n = {'quick': 3, 'thorough': 40}[tier]
-    core.hyp_run(rec, prop_cli, cases(), n, seed, shrink=(tier == 'thorough'))
+    n = {'quick': 6, 'thorough': 60}[tier]
+    from .. import cli
+    strat = st.tuples(cases(), cli.contexts(), st.sampled_from(['bare', 'bare', 'trailing_separator', 'subfolder', 'absolute']), st.booleans(), st.booleans()).map(
+        lambda t: dict(t[0], context=t[1], rule_spelling=t[2], stale_files=t[3], long_options=t[4]))
+    core.hyp_run(rec, prop_cli, strat, n, seed, shrink=(tier == 'thorough'))
 
 
 SIGMA_CASE = {'entries': [['\u039b\u038c\u0393\u039f\u03a3:Pass', 1], ['\u03bb\u03cc\u03b3\u03bf\u03c2', 2], ['password1', 6], ['monkey12', 5], ['iloveyou', 5]],
